@@ -20,7 +20,8 @@ RULE = ('scenarios = receiver / refund / outsider seeds x preimage length '
         'sha256/shake256, ptlc, ptlc+tweak) x four witness kinds, matching '
         'pairs judged exactly, foreign-key cross-pairings must reject. '
         'distinct = by (lock, witness, t, now); non-trivial = boundary time, '
-        'wrong key, wrong preimage or cross-pairing')
+        'wrong key, wrong preimage or cross-pairing'
+        ' [plus a configured slack threshold (process-wide / per run), script witnesses, flag-not-permitted claim and refund, registers-off and extension processes, locks built again at a later creation time]')
 ASSUMPTIONS = [
     'verifier clock pinned; default ts_threshold = 60',
     "the refund witness's dummy preimage differs from the real preimage",
